@@ -97,9 +97,10 @@ pub fn clip_scene(max_dim: u32, max_tris: usize, color_only_ok: bool) -> BoxedSt
                 any::<bool>(),
                 target_kind(color_only_ok),
                 bg_depth(),
+                (0u8..8, 0u8..8),
             )
         })
-        .prop_filter_map("triangle through the clip-space apex (D-d)", |((bw, bh), (l, r), (t, b), tris, batch, target, bg)| {
+        .prop_filter_map("triangle through the clip-space apex (D-d)", |((bw, bh), (l, r), (t, b), tris, batch, target, bg, (fx, fy))| {
             let mut ts = vec![];
             for (tri, _) in &tris {
                 ts.push(nudge_from_apex(*tri).0?);
@@ -117,6 +118,7 @@ pub fn clip_scene(max_dim: u32, max_tris: usize, color_only_ok: bool) -> BoxedSt
                 cfg: Cfg::plain(),
                 shader_mode: 0,
                 shared_verts: false,
+                flip: [fx == 0, fy == 0],
             })
         })
         .boxed()
@@ -171,6 +173,7 @@ pub fn camera_scene(max_dim: u32, max_tris: usize, color_only_ok: bool) -> Boxed
             cfg: Cfg::plain(),
                 shader_mode: 0,
                 shared_verts: false,
+            flip: [false, false],
         })
         .boxed()
 }
